@@ -161,8 +161,20 @@ var histKinds = []string{
 
 func genItems(t *rapid.T, maxLen int) []int {
 	hi := 5
-	if rapid.IntRange(0, 7).Draw(t, "wide") == 0 {
+	switch rapid.IntRange(0, 9).Draw(t, "wide") {
+	case 0:
 		hi = 7
+	case 1: // large sets: dozens of members, large overlaps between operands
+		n := rapid.IntRange(17, 48).Draw(t, "bigN")
+		lo := rapid.IntRange(0, 6).Draw(t, "bigLo")
+		items := make([]int, 0, n+2)
+		for i := 0; i < n; i++ {
+			items = append(items, lo+i)
+		}
+		if rapid.Bool().Draw(t, "bigExtra") {
+			items = append(items, 90+rapid.IntRange(0, 5).Draw(t, "bigX"))
+		}
+		return items
 	}
 	return rapid.SliceOfN(rapid.IntRange(0, hi), 0, maxLen).Draw(t, "items")
 }
